@@ -80,3 +80,65 @@ Example C09_ex : let c := {| spb := 2; lbits := 1; simple := true; nothrow := tr
   occ_list c (cur t2) = [(0, 1); (1, 0)] /\ it_begin c t2 = (0, 1) /\ it_next c t2 (0, 1) = (1, 0) /\
   it_next c t2 (1, 0) = it_end t2 /\ it_prev c t2 (it_end t2) = Some (1, 0).
 Proof. vm_compute. repeat split; reflexivity. Qed.
+
+(* ---- iteration against the abstract map (LockedRefine.v): a begin / *it / ++it loop lists exactly the pairs of the map, the reverse traversal is the reverse list, erase(it) returns the successor ---- *)
+From LC Require Import LazyRefine LockedRefine.
+Theorem C09_iteration_lists_the_map :
+  forall (c : config) (hash : N -> N),
+  cfg_ok c ->
+  forall (fapply : fnk -> Z -> bool -> Z * bool) (w : world) (a : nat) (s : tslot)
+  (reg : nat) (m : amap) (w0 : world) (r0 : out),
+  active s = true ->
+  Refine.good c hash (tb s) ->
+  rep c (tb s) m ->
+  (reg < length (its w))%nat ->
+  step_some c hash fapply w a s (ItBegin reg) = (w0, r0) ->
+  let
+  '(w', r) := iter_collect c hash fapply w0 a s reg (length (occ_list c (cur (tb s)))) in
+  Refine.kvs r = contents c (tb s) /\
+  is_listing m (Refine.kvs r) /\ get_it c w' (tb s) reg = Some (it_end (tb s)) /\ tabs w' = tabs w.
+Proof. exact iteration_lists_the_map. Qed.
+Print Assumptions C09_iteration_lists_the_map.
+
+Theorem C09_reverse_traversal_is_reverse :
+  forall (c : config) (hash : N -> N),
+  cfg_ok c ->
+  forall (fapply : fnk -> Z -> bool -> Z * bool) (w : world) (a : nat) (s : tslot)
+  (m : amap) (w1 : world) (r1 : out) (w2 : world) (r2 : out),
+  active s = true ->
+  Refine.good c hash (tb s) ->
+  rep c (tb s) m ->
+  step_some c hash fapply w a s LTraverse = (w1, r1) ->
+  step_some c hash fapply w a s LRTraverse = (w2, r2) ->
+  Refine.kvs r2 = rev (Refine.kvs r1) /\ is_listing m (Refine.kvs r1) /\ w1 = w /\ w2 = w.
+Proof. exact rtraverse_is_reverse. Qed.
+Print Assumptions C09_reverse_traversal_is_reverse.
+
+Theorem C09_erase_iterator_returns_successor :
+  forall (c : config) (hash : N -> N),
+  cfg_ok c ->
+  forall (fapply : fnk -> Z -> bool -> Z * bool) (w : world) (a : nat) (s : tslot)
+  (reg dst : nat) (w' : world) (r : out) (m : amap) (p : N * N) (k : N) (v : Z)
+  (l1 l2 : list (N * N)),
+  active s = true ->
+  Refine.good c hash (tb s) ->
+  rep c (tb s) m ->
+  get_it c w (tb s) reg = Some p ->
+  at_pos (tb s) p k v ->
+  occ_list c (cur (tb s)) = l1 ++ p :: l2 ->
+  step_some c hash fapply w a s (LEraseIt reg dst) = (w', r) ->
+  exists t' : table,
+  let q := hd (it_end t') l2 in
+  w' = put_it (put_tab w a (Some {| tb := t'; active := true |})) dst q /\
+  r = [RPos (fst q) (snd q)] /\
+  Refine.good c hash t' /\
+  Refine.lim_same (tb s) t' /\
+  bhp (cur t') = bhp (cur (tb s)) /\ rep c t' (mset m k None) /\ occ_list c (cur t') = l1 ++ l2.
+Proof. exact refines_LEraseIt. Qed.
+Print Assumptions C09_erase_iterator_returns_successor.
+
+Theorem C09_contents_listing :
+  forall (c : config) (hash : N -> N) (t : table) (m : amap),
+  Refine.good c hash t -> rep c t m -> is_listing m (contents c t).
+Proof. exact contents_listing. Qed.
+Print Assumptions C09_contents_listing.
